@@ -590,4 +590,62 @@ Section Proofs.
     cbv zeta. rewrite H, (step_comm now s o G Ho). cbn [fst snd].
     exact (spec_purge now s o).
   Qed.
+
+  (* ---- every stored entry is accounted at exactly its size ---- *)
+  Definition entry_ok (e : entry) : Prop :=
+    size_of vmem esz isz (e_key e) (e_val e) = Some (e_mem e) /\ 0 < e_mem e.
+
+  Lemma ok_without k l : Forall entry_ok l -> Forall entry_ok (without k l).
+  Proof. intros H. unfold without. eapply incl_Forall; [apply incl_filter|exact H]. Qed.
+
+  Lemma ok_fit b l : Forall entry_ok l -> Forall entry_ok (fit b l).
+  Proof.
+    intros H. destruct (fit_prefix b l) as [r Hr]. rewrite Hr in H. apply Forall_app in H. exact (proj1 H).
+  Qed.
+
+  Lemma spec_add_ok now s k v ttl :
+    Forall entry_ok (s_items s) -> Forall entry_ok (s_items (fst (spec_add vmem esz isz tmax now s k v ttl))).
+  Proof.
+    intros H. unfold spec_add. destruct (s_limit s =? 0); [exact H|].
+    destruct (size_of vmem esz isz k v) as [sz|] eqn:Es; [|apply ok_without, H].
+    destruct ((0 <=? ttl)%Z && (0 <? sz) && (sz <=? s_limit s)) eqn:Ec; [|apply ok_without, H].
+    cbn [fst s_items]. apply Forall_cons; [|apply ok_fit, ok_without, H].
+    unfold entry_ok. cbn [e_key e_val e_mem]. split; [exact Es|lia].
+  Qed.
+
+  Lemma spec_step_ok now s (o : op) :
+    Forall entry_ok (s_items s) -> Forall entry_ok (s_items (snd (fst (sstep (now, s) o)))).
+  Proof.
+    intros H. destruct o as [k|k v ttl|k v|k|n|t]; unfold spec_step.
+    - unfold spec_get. destruct (find (has_key k) (s_items s)) as [e|] eqn:F; [|exact H].
+      destruct (fresh now e); cbn [fst snd s_items]; [|apply ok_without, H].
+      apply Forall_cons; [|apply ok_without, H].
+      apply find_some in F. rewrite Forall_forall in H. apply H, F.
+    - pose proof (spec_add_ok now s k v ttl H) as A.
+      destruct (spec_add vmem esz isz tmax now s k v ttl); exact A.
+    - pose proof (spec_add_ok now s k v (s_dttl s) H) as A.
+      destruct (spec_add vmem esz isz tmax now s k v (s_dttl s)); exact A.
+    - cbn [fst snd spec_del s_items]. apply ok_without, H.
+    - cbn [fst snd spec_setLimit s_items]. apply ok_fit, H.
+    - exact H.
+  Qed.
+
+  Lemma spec_run_ok (ops : list op) : forall now s,
+    Forall entry_ok (s_items s) -> Forall entry_ok (s_items (snd (snd (srun (now, s) ops)))).
+  Proof.
+    induction ops as [|o ops IH]; intros now s H; [exact H|].
+    cbn [spec_run]. pose proof (spec_step_ok now s o H) as H1.
+    destruct (sstep (now, s) o) as [[now1 s1] r]. cbn [fst snd] in H1.
+    specialize (IH now1 s1 H1). destruct (srun (now1, s1) ops) as [outs [nowf sf]]. exact IH.
+  Qed.
+
+  Theorem entries_accounted t0 cap dttl b (ops : list op) :
+    cap <= U64MAX -> dttl_ok dttl -> Forall op_ok ops ->
+    Forall (fun e => size_of vmem esz isz (e_key e) (e_val e) = Some (e_mem e) /\ 0 < e_mem e)
+           (entries (snd (snd (crun (t0, clp_new t0 cap dttl b) ops)))).
+  Proof.
+    intros Hc Hd Hf. rewrite (new_comm t0 cap dttl b Hc Hd).
+    destruct (run_comm ops t0 _ (spec_new_good cap dttl b Hc) Hf) as [H _]. rewrite H. cbn [snd conc mk_of entries].
+    apply (spec_run_ok ops t0 (spec_new cap dttl b)). constructor.
+  Qed.
 End Proofs.
